@@ -12,7 +12,9 @@ a parameter: param.<name> keeps delivering the argument, in the body, its caller
 bare-return-delivers-nothing (the reference executed a bare `return;` - DESIGN
 section 6, F6); derived-attribute-recomputed; self-bound:<statement> (self used as handle of relate / unrelate / delete / select / ...);
 enumerator-modeled-order and constant-modeled-value (rows of the model file permuted - F6 second part); row-order-independent;
-bounded-time.
+equal-names-distinct-elements (item equal-names: elements of equal name in different external entities / kinds / classes of one
+class name have bodies of their own and are invoked in every order); derived-attribute-other-instances (derived attribute bodies
+that read / assign the equally named attribute of other instances); bounded-time.
 """
 import itertools
 
@@ -41,7 +43,7 @@ def run_case(ctx, case):
         return
     ctx.case(key=case, nontrivial=True)
     for clause, observed, required in res:
-        ctx.check(False, clause=clause, input=dict(case, population=case.get('population') or C.POPULATION, oal=C.bodies(case)),
+        ctx.check(False, clause=clause, input=dict(case, population=C.default_population(case), oal=C.bodies(case)),
                   observed=observed, required=required)
 
 
@@ -427,7 +429,7 @@ def shadow_cases():
 TYPE_OF_FORM = dict(int='integer', str='string', bool='boolean')
 
 
-@item('templates', stands_in_for=STANDS, shards=4, weight=2,
+@item('templates', stands_in_for=STANDS, shards=2, weight=2,
       bound='every kind (function, bridge, class-based, instance-based operation) x return form (integer / string / boolean value, bare return, '
             'falling off the end) x call context (from Python, invocation statement, assignment, inside an expression, as argument of another '
             'invocation, if / elif / while condition, where clause, for-each body, return expression) with 3 parameters (integer, string, boolean) '
@@ -452,12 +454,248 @@ def templates(ctx):
     ctx.exhausted = True
 
 
+# ------------------------------------------------------------------------------------------------- equal names
+# Elements with equal names are different elements (wide model of _c15_gen): bridges of two external entities, a function named
+# like a bridge, operations and derived attributes of two classes that have the same *name* (key letters A and T; B as a class of
+# another name).  Every element has a body of its own (its own constant, its own trace) and they are invoked in every order.
+HOMONYMS = dict(bX=('bridge', 'EX'), bY=('bridge', 'EY'), f=('function', None), cA=('cop', 'A'), cT=('cop', 'T'), cB=('cop', 'B'),
+                iA=('iop', 'A'), iT=('iop', 'T'), iB=('iop', 'B'), dA=('derived', 'A'), dT=('derived', 'T'))
+HOMONYM_GROUPS = [['bX', 'bY'], ['bX', 'f'], ['bY', 'f'], ['bX', 'bY', 'f'], ['cA', 'cT'], ['iA', 'iT'], ['cA', 'iT'], ['iA', 'cT'],
+                  ['cA', 'cT', 'cB'], ['iA', 'iT', 'iB'], ['f', 'cA', 'iT'], ['bX', 'bY', 'f', 'cA', 'cT'], ['bX', 'f', 'iA', 'iT', 'cB'],
+                  ['dA', 'dT'], ['dA', 'iT'], ['dA', 'cT'], ['dT', 'iA'], ['dA', 'dT', 'f']]
+RECEIVER = dict(A=1, T=2, B=0)            # receiver of instance-based operations / derived attributes: index in C.POPULATION_WIDE
+RECEIVER_VAR = dict(A='a1', T='t1', B='b1')
+RECEIVER_SELECT = dict(A=['selfrom', 'any', 'a1', 'A', ['bin', '==', ['attr', ['selected'], 'i'], ['int', 2]]],
+                       T=['selfrom', 'any', 't1', 'T', ['bin', '==', ['attr', ['selected'], 'i'], ['int', 8]]],
+                       B=['selfrom', 'any', 'b1', 'B', ['bin', '==', ['attr', ['selected'], 'n'], ['int', 10]]])
+KEY_ATTR = dict(A='i', T='i', B='n')
+HOMONYM_STYLES = ('value', 'effect', 'recursive')
+HOMONYM_MODES = ('python', 'oal', 'nested', 'python+oal')
+
+
+def _hom_call(elem, name, arg, inside=None):
+    """Invocation of (read of) one element; inside = the element whose body the expression stands in (self is the receiver there)."""
+    kind, owner = HOMONYMS[elem]
+    args = [['n', arg]]
+    recv = ['self'] if inside == elem else ['var', RECEIVER_VAR.get(owner)]
+    if kind == 'function':
+        return ['fcall', name, args]
+    if kind == 'bridge':
+        return ['bcall', owner, name, args]
+    if kind == 'cop':
+        return ['ccall', owner, name, args]
+    if kind == 'iop':
+        return ['icall', recv, name, args]
+    return ['attr', recv, name]
+
+
+def _hom_needs(elem):
+    kind, owner = HOMONYMS[elem]
+    return [RECEIVER_SELECT[owner]] if kind in ('iop', 'derived') else []
+
+
+def _hom_body(elem, k, name, style, nested=None):
+    """Body of element number k (its constant: k + 1).  nested: an equally named element invoked from this body."""
+    kind, owner = HOMONYMS[elem]
+    c = ['int', k + 1]
+    if kind == 'derived':
+        own = ['attr', ['self'], name]
+        body = [['assign', own, ['bin', '+', ['bin', '*', ['attr', ['self'], 'i'], ['int', 10]], c]]]
+        if nested:
+            call = _hom_call(nested, name, ['int', 2], elem)
+            if HOMONYMS[nested][0] == 'derived' or style != 'effect':
+                body += _hom_needs(nested) + [['assign', X, call], ['assign', own, ['bin', '+', own, ['bin', '*', X, ['int', 100]]]]]
+            else:                       # the equally named operation returns nothing: its trace is in the population
+                body += _hom_needs(nested) + [['call', call], ['assign', own, ['bin', '+', own, ['int', 50]]]]
+        return body, 'int'
+    mine = ['bin', '*', ['attr', ['self'], KEY_ATTR[owner]], ['int', 1000]] if kind == 'iop' else ['int', 0]
+    void_callee = nested and style == 'effect' and HOMONYMS[nested][0] != 'derived'
+    inner = []
+    if nested:
+        call = _hom_call(nested, name, ['bin', '+', ['param', 'n'], ['int', 1]], elem)
+        inner = _hom_needs(nested) + ([['call', call]] if void_callee else [['assign', Y, call]])
+    if style == 'effect':
+        body = [['create', 'b9', 'B'], ['assign', ['attr', ['var', 'b9'], 'n'], ['bin', '+', ['bin', '+', ['int', 1000 + 10 * (k + 1)], ['param', 'n']], mine]]]
+        body += inner
+        if nested and not void_callee:
+            body.append(['assign', ['attr', ['var', 'b9'], 'n'], ['bin', '+', ['attr', ['var', 'b9'], 'n'], ['bin', '*', Y, ['int', 10000]]]])
+        return body, None
+    if style == 'recursive' and not nested:
+        again = _hom_call(elem, name, ['bin', '-', ['param', 'n'], ['int', 1]], elem)
+        return [['if', ['bin', '<=', ['param', 'n'], ['int', 0]], [['return', ['bin', '+', c, mine]]], [], None],
+                ['assign', X, ['param', 'n']], ['assign', Y, again],
+                ['return', ['bin', '+', ['bin', '*', Y, ['int', 10]], ['bin', '+', c, ['bin', '-', X, ['param', 'n']]]]]], 'int'
+    body = [['assign', X, ['bin', '*', ['param', 'n'], ['int', 10]]]] + inner
+    value = ['bin', '+', ['bin', '+', X, c], mine]
+    if nested:
+        value = ['bin', '+', value, ['bin', '*', Y, ['int', 10000]]]
+    return body + [['return', value]], 'int'
+
+
+def _hom_step(elem, name, n):
+    kind, owner = HOMONYMS[elem]
+    return dict(kind=kind, name=name, owner=owner, args={} if kind == 'derived' else dict(n=n),
+                this=RECEIVER[owner] if kind in ('iop', 'derived') else None)
+
+
+def homonym_case(group, order, style, mode):
+    """group: element ids; order: the order in which they are invoked; see HOMONYM_STYLES / HOMONYM_MODES."""
+    name = 'd' if any(HOMONYMS[e][0] == 'derived' for e in group) else 'N'
+    nested = dict([(order[0], order[1])]) if mode == 'nested' else {}
+    callables, derived = [], {}
+    for k, elem in enumerate(group):
+        kind, owner = HOMONYMS[elem]
+        st = style
+        if nested.get(elem) and HOMONYMS[nested[elem]][0] == 'derived' and style == 'effect':
+            st = 'value'                # the value of the equally named derived attribute goes into the result
+        body, ret = _hom_body(elem, k, name, st, nested.get(elem))
+        if kind == 'derived':
+            derived[name if owner == 'A' else '%s.%s' % (owner, name)] = body
+        else:
+            callables.append(dict(kind=kind, name=name, owner=owner, params=[['n', 'integer']], ret=ret, form='value' if ret else 'fall', body=body))
+    main = []
+    for sel in RECEIVER_SELECT.values():
+        if any(sel in _hom_needs(e) for e in order):
+            main.append(sel)
+    for p, elem in enumerate(order):
+        call = _hom_call(elem, name, ['int', p % 3 + 1])
+        void = [c for c in callables if (c['kind'], c['owner']) == HOMONYMS[elem] and c['ret'] is None]
+        if void:
+            main.append(['call', call])
+        else:
+            main += [['create', 'b8', 'B'], ['assign', ['attr', ['var', 'b8'], 'n'], call]]
+    main.append(['return', ['int', len(order)]])
+    callables.append(dict(kind='function', name='main', owner=None, params=[], ret='int', form='value', body=main))
+    run_main = dict(kind='function', name='main', owner=None, args={}, this=None)
+    if mode == 'python':
+        steps = [_hom_step(e, name, p % 3 + 1) for p, e in enumerate(order)] + [_hom_step(order[0], name, 2)]
+    elif mode == 'oal':
+        steps = [run_main]
+    elif mode == 'nested':
+        steps = [_hom_step(order[0], name, 2), _hom_step(order[-1], name, 3)]
+    else:
+        steps = [_hom_step(order[0], name, 4), run_main, _hom_step(order[-1], name, 5)]
+    return dict(callables=callables, derived=derived, rows=None, wide=True, clause='equal-names-distinct-elements',
+                entry=dict(kind='sequence', steps=steps))
+
+
+def homonym_cases(quick=True):
+    n = 0
+    for group in HOMONYM_GROUPS:
+        if len(group) <= 3:
+            orders = [list(o) for o in itertools.permutations(group)]
+        elif quick:
+            orders = [group, group[2:] + group[:2], group[::-1]]
+        else:
+            orders = [group[r:] + group[:r] for r in range(len(group))] + [group[::-1][r:] + group[::-1][:r] for r in range(len(group))]
+        only_derived = all(HOMONYMS[e][0] == 'derived' for e in group)
+        for order in orders:
+            for style in (HOMONYM_STYLES[:1] if only_derived else HOMONYM_STYLES):
+                for mode in HOMONYM_MODES:
+                    n += 1
+                    if style == 'recursive' and mode == 'nested':
+                        continue
+                    if quick and style != 'value' and mode in ('python', 'python+oal') and n % 2:     # the 4 ways in full for style value
+                        continue
+                    yield homonym_case(group, order, style, mode)
+                    if not quick and any(HOMONYMS[e][1] == 'T' for e in group) and mode == 'python':
+                        # control: the same elements when the two classes have different names
+                        yield dict(homonym_case(group, order, style, mode), twin_name='TW')
+
+
+# Derived attributes whose bodies read / assign the *equally named* attribute of other instances (C.derived_body): another
+# instance of the class (recursion over R3, or found by a where clause), instances of another class on which the name is an
+# ordinary attribute (B.n, T.n) or a derived attribute with a body of its own (T.d, class name equal to A's).
+A0, A4 = ['var', 'a0'], ['var', 'a4']
+_SEL = lambda var, cls, attr, v: ['selfrom', 'any', var, cls, ['bin', '==', ['attr', ['selected'], attr], ['int', v]]]
+DERIVED_OTHER = [       # (key of the attribute, form, extra derived attributes, instance whose value changes, statements that change it)
+    ('d', 'up', {}, 5, [_SEL('a4', 'A', 'i', 4), ['selrel', 'one', 'a0', A4, [['A', 'R3', 'leads']], None], ['unrelate', 'a4', 'a0', 'R3', 'leads', None]]),
+    ('d', 'down', {}, 3, [_SEL('a4', 'A', 'i', 4), ['assign', ['attr', A4, 'i'], ['int', 9]]]),
+    ('d', 'first-then', {}, 5, [_SEL('a4', 'A', 'i', 4), ['selrel', 'one', 'a0', A4, [['A', 'R3', 'leads']], None], ['unrelate', 'a0', 'a4', 'R3', 'follows', None]]),
+    ('d', 'peer', {}, 5, [_SEL('a4', 'A', 'i', 3), ['assign', ['attr', A4, 'i'], ['int', 13]]]),
+    ('d', 'sum-T', {'T.d': ('own', 3)}, 1, [_SEL('t1', 'T', 'i', 6), ['assign', ['attr', ['var', 't1'], 'i'], ['int', 16]]]),
+    ('d', 'up', {'T.d': ('T-up', 0)}, 5, [_SEL('a4', 'A', 'i', 4), ['selrel', 'one', 'a0', A4, [['A', 'R3', 'leads']], None], ['unrelate', 'a4', 'a0', 'R3', 'leads', None]]),
+    ('n', 'up', {}, 5, [_SEL('a4', 'A', 'i', 4), ['selrel', 'one', 'a0', A4, [['A', 'R3', 'leads']], None], ['unrelate', 'a4', 'a0', 'R3', 'leads', None]]),
+    ('n', 'peer', {}, 5, [_SEL('a4', 'A', 'i', 3), ['assign', ['attr', A4, 'i'], ['int', 13]]]),
+    ('n', 'sum-B', {}, 1, [_SEL('b1', 'B', 'n', 20), ['assign', ['attr', ['var', 'b1'], 'n'], ['int', 27]]]),
+    ('n', 'acc-B', {}, 1, [_SEL('b1', 'B', 'n', 20), ['assign', ['attr', ['var', 'b1'], 'n'], ['int', 27]]]),
+    ('n', 'where-B', {}, 1, [_SEL('b1', 'B', 'n', 10), ['assign', ['attr', ['var', 'b1'], 'n'], ['int', 7]]]),
+    ('n', 'write-B', {}, 1, [_SEL('a0', 'A', 'i', 1), ['selrel', 'any', 'b1', A0, [['B', 'R1', None]], None], ['assign', ['attr', ['var', 'b1'], 'n'], ['int', 7]]]),
+    ('n', 'sum-T', {}, 1, [_SEL('t1', 'T', 'i', 6), ['assign', ['attr', ['var', 't1'], 'n'], ['int', 107]]]),
+]
+
+
+def derived_other_cases():
+    entry_main = dict(kind='function', name='main', owner=None, args={}, this=None)
+    for key, form, extra, watch, change in DERIVED_OTHER:
+        for k in (0, 2):
+            derived = {key: C.derived_body(form, key, k)}
+            for ekey, (eform, ek) in extra.items():
+                derived[ekey] = C.derived_body(eform, ekey.split('.')[-1], ek)
+            base = dict(derived=derived, rows=None, wide=True, clause='derived-attribute-other-instances')
+            for cls, name, _ in C.derived_items(base):
+                for this in range(len(C.POPULATION_WIDE[cls])):       # read from Python on every instance
+                    if k and this % 2:
+                        continue
+                    yield dict(base, callables=[], entry=dict(kind='derived', name=name, owner=cls, args={}, this=this))
+            d = ['attr', ['var', 'a1'], key]
+            seen = [['selfrom', 'many', 'as1', 'A', None], ['assign', X, ['int', 0]], ['for', 'a1', 'as1', [['assign', X, ['bin', '+', ['bin', '*', X, ['int', 3]], d]]]]]
+            mains = [seen + [['return', X]],
+                     [['selfrom', 'many', 'as1', 'A', ['bin', '>=', ['attr', ['selected'], key], ['int', 2]]],
+                      ['selfrom', 'any', 'a1', 'A', ['bin', '>', ['attr', ['selected'], key], ['int', 2]]], ['assign', X, ['int', 0]],
+                      ['if', ['un', 'not_empty', ['var', 'a1']], [['assign', X, ['attr', ['var', 'a1'], 'i']]], [], None],
+                      ['return', ['bin', '+', ['bin', '*', ['un', 'cardinality', ['var', 'as1']], ['int', 10]], X]]],
+                     [_SEL('a1', 'A', 'i', watch), ['assign', X, d]] + change + [['assign', Y, d], ['create', 'b8', 'B'], ['assign', ['attr', ['var', 'b8'], 'n'], X],
+                                                                           ['return', Y]]]
+            if k:
+                mains = mains[2:]
+            for body in mains:
+                main = dict(kind='function', name='main', owner=None, params=[], ret='int', form='value', body=body)
+                yield dict(base, callables=[main], entry=entry_main)
+            # the change made from Python's point of view: read, run the statements, read again (recomputed on every read)
+            if not k:
+                chg = dict(kind='function', name='change', owner=None, params=[], ret=None, form='fall', body=change)
+                step = dict(kind='derived', name=key, owner='A', args={}, this=watch - 1)
+                yield dict(base, callables=[chg], entry=dict(kind='sequence', steps=[step, dict(kind='function', name='change', owner=None, args={}, this=None), step]))
+
+
+@item('equal-names', stands_in_for=STANDS, shards=3, weight=2,
+      bound='wide model (bridges of two external entities EX / EY, classes A and T with the same class name and different key letters, B, '
+            'A reflexive over R3, A one-to-many T over R5).  (1) equally named elements with bodies of their own: 18 groups (same bridge name '
+            'in EX and EY, a function named like a bridge, class-based / instance-based operations of A and T - and of B - with one name, derived '
+            'attribute d of A and of T, an operation of T named like the derived attribute of A, mixtures of up to 5 elements) x every order of '
+            'invocation (all permutations up to 3 elements; 3 orders above, thorough: all rotations forward and backward) x 3 body styles (value computed from the parameter, a local '
+            'and an own constant; void with a trace in the population; recursive) x 4 ways of invoking (from Python one after the other and the first '
+            'again; from one OAL body; the first one invokes the second from its own body; Python, OAL, Python; quick thins the ways for the void and recursive styles; thorough adds the same models with '
+            'differently named classes).  (2) derived attributes whose bodies '
+            'read / assign the equally named attribute of other instances: 13 bodies (depth in an R3 chain upward / downward / assigned first, a peer '
+            'found by a where clause, sums over B.n / T.n (ordinary attributes) with a local or the attribute itself as accumulator, the name in a '
+            'where clause, assignment to B.n, sum over T.d with a body of its own, T.d from A.d) read from Python on every instance, summed / '
+            'filtered / selected in OAL, and read - changed (unrelate, attribute write) - read again from OAL and from Python; exhaustive')
+def equal_names(ctx):
+    if ctx.shard == 0:
+        ctx.note(NOTE)
+        ctx.note('a derived attribute action that reads self.<attribute> before assigning it is outside the property (skipped); after an '
+                 'assignment it reads as the value assigned last')
+    cases = list(derived_other_cases()) + list(homonym_cases(ctx.quick))
+    for n, case in enumerate(cases):
+        if n % ctx.nshards != ctx.shard:
+            continue
+        if ctx.expired():
+            ctx.exhausted = False
+            return
+        run_case(ctx, case)
+    ctx.exhausted = True
+
+
 # ------------------------------------------------------------------------------------------------- random call graphs
 @item('callgraphs', stands_in_for=STANDS, shards=8, weight=4,
       bound='random models of 2-5 callables (functions, bridges, class / instance operations) + derived attribute A.d with random bodies '
             '(C04 statement generator + parameters, self, enumerators, constants, up to 3 invocations per body anywhere an expression or '
             'statement may stand; parameters named n/t/c or like the local variables x/y/u/p, about a third of the variable assignments go to a local named like a parameter), every invocation passes d-1 so that call depth <= 3 with recursion and mutual calls; entry invoked from Python '
-            'with d in 1..3; <= 60 invocations per case; sampled until 80% of the time budget')
+            'with d in 1..3; <= 60 invocations per case; about 40% of the models are wide ones (item equal-names): bridges of EX / EY and functions '
+            'named N1 / N2, operations of A and T (classes of one name) named O1..O3, derived attributes A.d / T.d / A.n whose bodies look at the equally '
+            'named attribute of other instances, 1-3 invocations / derived attribute reads from Python in a row; sampled until 80% of the time budget')
 def callgraphs(ctx):
     if ctx.shard == 0:
         ctx.note(NOTE)
